@@ -1,7 +1,7 @@
 import sys, os, json, time, argparse, hashlib, re, glob, traceback
 from concurrent.futures import ThreadPoolExecutor
 from .env import *
-from . import build, corr
+from . import build, corr, scope
 from .props import PROPS
 try:
     from manifest_table import CLAIMS as _CLAIMS
@@ -206,12 +206,13 @@ def do_replay(prop, path):
     with open(path) as f:
         rp = json.load(f)
     with build_lock():
-        okf, _ = build.build_extractor_and_facts()
-        okx, _ = build.build_xlate()
+        okf, _, ffail = build.regen_facts()
+        okx, _, xfail = build.regen_xlate()
         okl, leanlog = build.lake_build([prop.module, 'mqttdrv'])
         okh, hlog = build.build_harness()
+    scoped, _ = scope.judge(prop.module, ffail + xfail)   # failed sections / functions this property is built from
     if rp.get('kind') == 'broken-obligation' and 'ops' not in rp:
-        still = not (okf and okx and okl and okh)
+        still = not (okf and okx and okl and okh) or bool(scoped)
         print('obligation %s: %s' % (rp.get('obligation'), 'still broken' if still else 'checks again'))
         if still:
             print('VIOLATION property=%s replay=%s no-failing-input-found' % (prop.pid, path))
@@ -271,12 +272,17 @@ def main(argv):
 
     # 1-3: rebuild from the current tree
     with build_lock():
-        okf, flog = build.build_extractor_and_facts()
+        okf, flog, ffail = build.regen_facts()
         if not okf:
             broken.append(('regenerated facts', flog))
-        okx, xlog = build.build_xlate()
+        okx, xlog, xfail = build.regen_xlate()
         if not okx:
             broken.append(('regenerated translation of the whitelisted Go functions (xlate)', xlog[-6000:]))
+        # a section / function that could not be regenerated (its baseline text is in the generated
+        # file) is an obligation of this property only if the property is built from it
+        scoped, scope_notes = scope.judge(prop.module, ffail + xfail)
+        broken.extend(scoped)
+        ctx.notes.extend(scope_notes)
         okl, leanlog = build.lake_build([prop.module, 'mqttdrv'])
         if not okl:
             m = re.search(r'error: (\S+\.lean):(\d+)', leanlog)
